@@ -16,8 +16,8 @@ import vlib
 PROP = "C18"
 
 BOUNDS = {
-    "quick":    {"full": 4, "lines": 6, "indent": 7, "interp": 6, "mutants_per_sample": 3, "model_n": 4},
-    "thorough": {"full": 5, "lines": 8, "indent": 9, "interp": 8, "mutants_per_sample": 40, "model_n": 5},
+    "quick":    {"full": 4, "lines": 6, "indent": 7, "interp": 6, "ilines": 6, "mutants_per_sample": 3, "model_n": 4},
+    "thorough": {"full": 5, "lines": 8, "indent": 9, "interp": 8, "ilines": 7, "mutants_per_sample": 40, "model_n": 5},
 }
 
 
@@ -30,7 +30,7 @@ def text_of(rec):
 def gather_inputs(chk, tier):
     b = BOUNDS[tier]
     inputs = []
-    for alpha in ("full", "lines", "indent", "interp", "doc"):
+    for alpha in ("full", "lines", "indent", "interp", "doc", "ilines"):
         r = vlib.tlc("LexInputs", "LexInputs.cfg",
                      constants={"Family": '"strings"', "N": b.get(alpha, 6), "AlphaName": '"%s"' % alpha})
         chk.add_tlc(r)
